@@ -171,6 +171,17 @@ pub fn check_case(ctx: &mut Ctx, ps: &mut Parsers, case: &Case) {
             consume_scaled(ctx, case, ps, "scale", s);
         }
     }
+    // call sequences on the scalable recipe: set_servings (empty, zero, huge) then scale_to_servings
+    for list in [vec![], vec![0], vec![u32::MAX, 1], vec![3, 3]] {
+        if let Some(Some(mut r)) = ctx.op(case, "parse", || parser.parse(input).into_output()) {
+            let l2 = list.clone();
+            if ctx.op(case, "set_servings", || r.set_servings(l2)).is_some() {
+                if let Some(s) = ctx.op(case, "set_servings.scale_to_servings", || r.scale_to_servings(2, &conv)) {
+                    ctx.op(case, "set_servings.scale_to_servings.json", || serde_json::to_string(&s).map(|x| x.len()).unwrap_or(0));
+                }
+            }
+        }
+    }
     // servings targets incl. 0 and u32::MAX: with a declared base of 0 or u32::MAX the factor is 0, inf or NaN
     let targets: &[u32] = if recipe_has_servings { &[7, 0, 1, u32::MAX] } else { &[7] };
     for n in targets {
@@ -238,6 +249,18 @@ pub fn targeted() -> Vec<String> {
         // zero / huge / tiny amounts meet the servings base: 0 x inf, inf x 0 and overflow to inf inside scaling and fitting
         v.push(format!("---\nservings: {t}\nserves: {t}\nyield: {t}\n---\n@a{{100%g}} @b{{0%g}} @c{{0}} @d{{0-1%cup}} @e{{0.0000000001%tsp}} #p{{0}} ~{{0%min}} 0 kg"));
     }
+    // empty servings list; more than 7 labels in one diagnostic (one label per `>>` entry)
+    v.push("---\nservings: []\n---\nMix @flour{200%g} and @water{1%l}.\n".to_string());
+    v.push(">> servings: \n@a{1}".to_string());
+    v.push((0..12).map(|i| format!(">> key{i}: value {i}\n")).collect::<String>() + "\nstep @a{1}\n");
+    v.push((0..9).map(|i| format!("@a{i}{{1%kg}} @&a{i}{{1%l}} ")).collect::<String>());
+    // single tokens longer than 64 KiB: a comment, a word, a run of blanks, a number, a line comment
+    let long = "x".repeat(70_000);
+    v.push(format!("Mix [- {long} -] the @salt{{1%g}} well é.\n\nThen @bake{{}} it.\n"));
+    v.push(format!("-- {long}\nThen @bake{{1%kg}} it é.\n"));
+    v.push(format!("{long} then @bake{{}} it é.\n"));
+    v.push(format!("a{}b @c{{1}} é\n", " ".repeat(70_000)));
+    v.push(format!("@a{{1%{long}}} and @b{{{long}}} é"));
     let d400 = "9".repeat(400);
     v.push(format!("@a{{{d400}%g}} @b{{{d400}%cup}} @c{{{d400}-1%oz}} @d{{0.{}1%kg}} {d400} kg\n>> servings: 0", "0".repeat(400)));
     v.push(format!(">> servings: 4294967295\n@a{{{d400}%lb}} @b{{0%lb}} @&a{{1%g}}"));
